@@ -548,6 +548,9 @@ pub struct TxRecoveryState {
     /// Abort intents that were logged but never completed (no matching `TxComplete`).
     /// These aborts must be resent to participants on recovery.
     pub pending_abort_intents: Vec<RecoveredAbortIntent>,
+    /// Transactions whose `TxComplete` (either outcome) is in the log. Whatever else a
+    /// coordinator was told about them (e.g. by an older snapshot), they are finished.
+    pub completed_txs: Vec<u64>,
 }
 
 /// An abort that was initiated but may not have been fully delivered.
@@ -610,6 +613,8 @@ impl TxRecoveryState {
             &fully_released,
         );
         Self::detect_pending_aborts(&mut state, abort_intents, &completed_txs);
+        state.completed_txs = completed_txs.into_iter().collect();
+        state.completed_txs.sort_unstable();
         state
     }
 
